@@ -33,9 +33,10 @@ ASSUMPTION_TEXT = {
     "[E-UUID]": "[E-UUID] a temp-file name derived from a fresh uuid4 names no existing file and is none of the file names "
                 "the program already holds",
     "[E-MD5]": "[E-MD5] hashlib.md5 has no collisions on the blobs compared",
-    "[L-MAP]": "[L-MAP] a comprehension `[self._from_base(v, parent=self) for v in xs]` (list and dict form) is the element-wise "
-               "application of the proved per-element contract of _from_base (the implicit loop of the comprehension is "
-               "not given an invariant of its own: lifting on paper)",
+    "[L-MAP]": "[L-MAP] a comprehension `[self._from_base(v, parent=self) for v in xs]` (list and dict form) is used through the "
+               "LIFTED contract of _from_base; that contract is proved from the per-element contract against the comprehension's "
+               "explicit loop (contracts/lang_models.py, loop rule with a pointwise invariant) - trusted: only that a "
+               "comprehension behaves as its explicit loop (PEP 202 / 274)",
     "[A-NOOVERFLOW]": "[A-NOOVERFLOW] the buffered-mode runs of the public methods (C05 transparency) cover executions in which "
                       "the buffer capacity does not force a flush inside the operation; what a forced flush does is covered by "
                       "the clauses of _flush_buffer (it loses nothing, reports conflicts)",
